@@ -11,8 +11,8 @@ RULE = ('cases are context tables: exhaustive n*m <= 12 (quick) / <= 16 (thoroug
         'the set of occurring (left, right) truth combinations, implication oriented narrower -> wider, unary kinds '
         'with include_unary, stable sort by the documented rank (contradiction, tautology, contingency, equivalent, '
         'complement, incompatible, implication, subcontrary, orthogonal); compared as list of (kind, left, right). '
-        'str(r) and r.tostring() must not raise for any context; str has one line per non-orthogonal entry, '
-        'tostring() one per entry, each "left kind right" padded as documented. A table is non-trivial when it has an '
+        'str(relations), relations.tostring() and str(entry) must return a str without raising for every context '
+        '(the statement fixes no layout). A table is non-trivial when it has an '
         'orthogonal pair, a swapped implication (wider property first) or an empty result.')
 ASSUMPTIONS = ['oracle restates the four-combination table of the property text', 'bitsets package behaves as documented']
 
@@ -86,20 +86,15 @@ def check_one(case, ctx, deep):
                 ctx.call(site, plain, context.relations)
             got = [(r.kind, r.left, r.right if r.__class__.binary else None) for r in rel]
             ctx.check(got == want, site, plain, lambda: f'{site} = {got!r}, want {want!r}')
-            width = max((len(str(e[1])) for e in want), default=0)
-            fmt = lambda e: '%%-%ds %%-12s %%s' % width % (e[1], e[0], e[2] if e[2] is not None else '')
+            # printing must be *defined* (the statement fixes no layout: column widths, which rows are shown and the
+            # wording of a line are the library's business - DESIGN.md 10.8)
             text = ctx.call(site + '/str', plain, str, rel)
-            ctx.check(text == '\n'.join(fmt(e) for e in want if e[0] != 'orthogonal'), site + '/str', plain,
-                      lambda: f'str({site}) = {text!r}')
+            ctx.check(isinstance(text, str), site + '/str', plain, lambda: f'str({site}) = {text!r}')
             text = ctx.call(site + '/tostring', plain, rel.tostring)
-            ctx.check(text == '\n'.join(fmt(e) for e in want), site + '/tostring', plain,
-                      lambda: f'{site}.tostring() = {text!r}')
-            for r, e in zip(rel, want):
-                if e[2] is not None:
-                    ctx.check(str(r) == f'{e[1]} {e[0]} {e[2]}', site + '/entry-str', plain, lambda: f'{str(r)!r}')
-                else:
-                    ctx.check(str(r) == f'{e[1]} {e[0]}', site + '/entry-str', plain, lambda: f'{str(r)!r}')
-
+            ctx.check(isinstance(text, str), site + '/tostring', plain, lambda: f'{site}.tostring() = {text!r}')
+            for r in rel:
+                text = ctx.call(site + '/entry-str', plain, str, r)
+                ctx.check(isinstance(text, str), site + '/entry-str', plain, lambda: f'{text!r}')
 
 from hypothesis import strategies as st
 
